@@ -18,6 +18,7 @@ CFGS = {
     'q':  ('MC_AdminOp_q.cfg',  [1, 1, 1, -1]),
     'q3': ('MC_AdminOp_q3.cfg', [1, 1, 1, -1]),
     'g2': ('MC_AdminOp_g2.cfg', [2, 1, 2, 0]),
+    'b3': ('MC_AdminOp_b3.cfg', [1, 1, 1, -1]),
     'm2': ('MC_AdminOp_m2.cfg', [1, 1, 2, 0]),
     'w2': ('MC_AdminOp_w2.cfg', [3, 1, 1, 1]),
     't111x': ('MC_AdminOp_t111x.cfg', [1, 1, 1, -1]),
@@ -103,6 +104,44 @@ def random_walk(g, rng, max_len=18):
     return path
 
 
+def batch_walks(g, rng, n):
+    """Directed behaviours on the b3 graph: a membership change and a power change accepted in ONE block, both replicas
+    execute it, then a request carried by fewer distinct signers than the full set (tallied against the set that
+    resulted from the batch), drained."""
+    def step(cur, pred):
+        out = [k for k in g.out.get(cur, []) if pred(g.edges[k])]
+        return rng.choice(out) if out else None
+    phases = [
+        lambda e: e[1] == 'Tx' and e[2][4] == 'ok' and e[2][0]['cmd'] in ('add', 'remove'),
+        lambda e: e[1] == 'Tx' and e[2][4] == 'ok' and e[2][0]['cmd'] == 'update',
+        lambda e: e[1] == 'CloseBlock',
+        lambda e: e[1] == 'Exec' and e[2][0] == 1 and e[3] != e[0],
+        lambda e: e[1] == 'Exec' and e[2][0] == 2 and e[3] != e[0],
+        lambda e: e[1] == 'Tx' and e[2][2] == 'contract' and len({x['s'] for x in e[2][1]}) < 3 and e[2][4] in ('ok', 'rejAuth'),
+    ]
+    seen, out = set(), []
+    for _ in range(n * 6):
+        if len(out) >= n:
+            break
+        cur = rng.choice(g.init)
+        path = []
+        for ph in phases:
+            k = step(cur, ph)
+            if k is None:
+                path = None
+                break
+            path.append(k)
+            cur = g.edges[k][3]
+        if not path:
+            continue
+        path = tuple(drain_path(g, path))
+        if path in seen:
+            continue
+        seen.add(path)
+        out.append(list(path))
+    return out
+
+
 def run_chunks(ctx, traces, nproc, per=400):
     """Replay in several driver processes (each replica owns LevelDB handles and background goroutines)."""
     from concurrent.futures import ThreadPoolExecutor
@@ -159,12 +198,12 @@ def run(ctx, replay=None):
 
     quick = ctx.tier == 'quick'
     workers = 4
-    exhaustive = ['q', 'g2', 't2120'] if quick else ['q', 'q3', 'g2', 't111x', 't1120', 't2120', 't3111', 't1111', 'm2', 'w2']
-    graph_cfgs = {'q': 14, 'g2': 14, 't2120': 400} if quick else \
-                 {'q': 14, 'q3': 16, 'g2': 14, 't111x': 400, 't1120': 400, 't2120': 400, 't3111': 400, 't1111': 400}
-    max_paths = {'q': 1100, 'g2': 700} if quick else {'q3': 4000}
-    race_paths = {'g2': 300} if quick else {'q3': 2000}
-    walks = {'q': 300, 'g2': 300} if quick else {'q3': 2500, 'g2': 800}
+    exhaustive = ['q', 'g2', 'b3', 't2120'] if quick else ['q', 'q3', 'g2', 'b3', 't111x', 't1120', 't2120', 't3111', 't1111', 'm2', 'w2']
+    graph_cfgs = {'q': 14, 'g2': 14, 'b3': 16, 't2120': 400} if quick else \
+                 {'q': 14, 'q3': 16, 'g2': 14, 'b3': 16, 't111x': 400, 't1120': 400, 't2120': 400, 't3111': 400, 't1111': 400}
+    max_paths = {'q': 1100, 'g2': 700, 'b3': 300} if quick else {'q3': 4000, 'b3': 3000}
+    race_paths = {'g2': 300, 'b3': 60} if quick else {'q3': 2000, 'b3': 600}
+    walks = {'q': 300, 'g2': 300, 'b3': 100} if quick else {'q3': 2500, 'g2': 800, 'b3': 800}
     old_cfgs = ['oldRace'] if quick else list(OLD)
     all_traces = []
     for name in exhaustive:
@@ -208,6 +247,16 @@ def run(ctx, replay=None):
                 all_traces.append(t)
             if walks.get(name):
                 ctx.log('walks %s: %d distinct' % (name, len(seen_walks)))
+            if name == 'b3':
+                bw = batch_walks(g, ctx.rng, 60 if quick else 400)
+                ctx.cov['batch_walks'] = len(bw)
+                if not bw:
+                    ctx.inconclusive.append('no behaviour with a membership change and a power change in one block was found in graph b3')
+                for k, p in enumerate(bw):
+                    t = tlc.path_to_steps(g, p)
+                    t['cfg'] = tcfg(name)
+                    t['id'] = 'batch-%s-%d-%d' % (name, ctx.seed, k)
+                    all_traces.append(t)
         tlc.cleanup(r)
     # the specification must be able to tell the old behaviours from the fixed ones
     sens = {}
